@@ -219,6 +219,12 @@ func c02Gen(rt *rapid.T) wProg {
 				p.Ops = append(p.Ops, wOp{K: "sub", S: k, T: "g0", A: gPick(rt, []string{"JRP", "JRP", "JR"}, "now")}, wOp{K: "fault", N: 1, A: "SubsUpdate"},
 					wOp{K: "set", S: k, T: "g0", A: "mode", B: "JRWP"}, wOp{K: "pub", S: k, T: "g0"})
 			}
+		case y >= 25 && y < 28 && gPct(rt, 50):
+			// the owner removes an attached member and the store fails at that deletion: the member stays
+			if k := gInt(rt, 1, len(p.Sess)-1, "kept"); p.Sess[k] != 0 {
+				p.Ops = append(p.Ops, wOp{K: "sub", S: 0, T: "g0"}, wOp{K: "sub", S: k, T: "g0"}, wOp{K: "fault", N: 1, A: "SubsDelete"},
+					wOp{K: "del", S: 0, T: "g0", A: "sub", U: p.Sess[k]}, wOp{K: "pub", S: 0, T: "g0"})
+			}
 		case y >= 25 && y < 28:
 			// the owner's {del topic} fails in the store: the topic lives on and takes messages
 			p.Ops = append(p.Ops, wOp{K: "sub", S: 0, T: "g0"}, wOp{K: "fault", N: 1, A: "TopicDelete"}, wOp{K: "del", S: 0, T: "g0", A: "topic", F: gPct(rt, 50)},
